@@ -345,6 +345,28 @@ class Index:
                 del global_funcs[nme]
         for m in self.modules.values():
             m.finish_view(global_classes, any_helpers, global_funcs)
+        # helpers that were looked through from another module and are called nowhere any more are analysed where they run
+        if any(m.inlined_calls for m in self.modules.values()):
+            looked = [(m, q, f) for m in self.modules.values() for q, f in m.functions.items() if getattr(f.node, "_looked_through", False)
+                      and not getattr(f.node, "_absorbed", False) and _VOCAB is not None and f.node.name not in _VOCAB]
+            if looked:
+                names = {f.node.name for _m, _q, f in looked}
+                left: Dict[str, int] = {}
+                for m in self.modules.values():
+                    for n in ast.walk(m.tree):
+                        if isinstance(n, ast.Call):
+                            fn_ = n.func
+                            nm_ = fn_.attr if isinstance(fn_, ast.Attribute) else (fn_.id if isinstance(fn_, ast.Name) else None)
+                            if nm_ in names:
+                                left[nm_] = left.get(nm_, 0) + 1
+                for m, q, f in looked:
+                    own = sum(1 for c in ast.walk(f.node) if isinstance(c, ast.Call) and (
+                        (isinstance(c.func, ast.Attribute) and c.func.attr == f.node.name) or (isinstance(c.func, ast.Name) and c.func.id == f.node.name)))
+                    if left.get(f.node.name, 0) - own <= 0:
+                        f.node._absorbed = True
+                        m.functions.pop(q, None)
+                        for q2 in [k for k in m.functions if k.startswith(q + ".")]:
+                            m.functions.pop(q2, None)
         # state that moved into a collaborator object shows up as a new attribute of the owner once the view is built: one more
         # attribute round, on the view
         if any(m.inlined_calls for m in self.modules.values()):
